@@ -658,6 +658,12 @@ def dom_corpus(tier: str, seed: int):
                                   "#[derive(Default, PartialEq, Eq, Hash, PartialOrd, Ord, Debug)]" if False else "#[derive(Default, PartialEq, Eq, Hash)]",
                                   "#[cfg_attr(all(), doc = \"cfg_attr doc\")]", "#[must_use]"])
         add(d, {"feat": ["foreign_attrs", "implicit_after_explicit"]}, modes_i=ri)
+        # 4b. variants named like prelude items / contextual keywords / the enum itself
+        odd = [("None", None, None), ("Some", None, None), ("Ok", "7", None), ("Err", None, None), ("Option", None, "opt"),
+               ("Copy", None, None), ("union", None, None), ("auto", "20", None), ("default", None, None), ("E", None, None),
+               ("Iter", None, None), ("EIter", None, None), ("Self_", None, None), ("core", None, None), ("str", "50", None),
+               ("Error", None, None), ("Item", None, None), ("Output", None, None), ("Target", None, None), ("Owned", None, None)]
+        add(make_decl(r, odd, shape="dom_odd_idents"), {"feat": ["odd_idents", "implicit_after_explicit"]}, modes_i=ri)
         # 5. sizes
         if bits > 8:
             for n in (255, 256, 257):
